@@ -37,7 +37,10 @@ let handle toks =
   | ["pw"; _; _; _; "nostats"] -> "STATS none"
   | ["oix"; _; _] -> "NOMODEL"
   | ["pw"; ty; maxdef; batches] ->
+      (* "s0" / "s1" items switch the statistics option; min/max are tracked regardless, the option decides at finalize *)
+      let on = ref true in
       let w = List.fold_left (fun w bt ->
+          if bt = "s0" then (on := false; w) else if bt = "s1" then (on := true; w) else
           match String.split_on_char '/' bt with
           | [vals; defs; nv] ->
               let vs = List.map bytes_of (split '.' vals) in
@@ -45,7 +48,7 @@ let handle toks =
                        else Some (List.init (String.length defs) (fun i -> z_of_int (Char.code defs.[i] - 48))) in
               pw_add_values w vs (zi nv) ds
           | _ -> failwith "bad batch") (pw_create (ptype_of ty) (zi maxdef)) (split ',' batches) in
-      (match pw_statistics w with
+      (match (if !on then pw_statistics w else None) with
        | None -> "STATS none"
        | Some ps -> Printf.sprintf "STATS nulls=%s min=%s max=%s" (zs ps.ps_null_count) (show_opt ps.ps_min_value) (show_opt ps.ps_max_value))
   | ["rd"; _file; ty; col; op; probe; maxidx; s; _d] ->
@@ -59,8 +62,14 @@ let handle toks =
                          ps_min_deprecated = opt_bytes omn; ps_max_deprecated = opt_bytes omx }
                 else None }
         | _ -> failwith "bad chunk" in
-      let rgs = List.map (fun e -> [chunk_of e]) (split ';' s) in
-      let r = { r_row_groups = rgs; r_leaf_types = [Some (ptype_of ty)] } in
+      (* "<t0>.<t1>...:<k>": leaf types of a nested / multi-column schema, the statistics belong to column k; the other
+         columns have chunks with metadata and no statistics *)
+      let (types, tcol) = match String.split_on_char ':' ty with
+        | [ts; k] -> (List.map ptype_of (String.split_on_char '.' ts), int_of_string k)
+        | _ -> ([ptype_of ty], 0) in
+      let dummy = { ch_has_metadata = true; ch_num_values = Z0; ch_stats = None } in
+      let rgs = List.map (fun e -> List.mapi (fun i _ -> if i = tcol then chunk_of e else dummy) types) (split ';' s) in
+      let r = { r_row_groups = rgs; r_leaf_types = List.map (fun t -> Some t) types } in
       let col = zi col and op = zi op and probe = bytes_of probe in
       let nrg = List.length rgs in
       let idxs = List.init nrg (fun i -> z_of_int i) in
@@ -111,6 +120,7 @@ let handle toks =
       let pgs = List.fold_left (fun acc pg ->
           let nonnull = ref 0 in
           let w = List.fold_left (fun w bt ->
+              if bt = "s0" || bt = "s1" then w else
               match String.split_on_char '/' bt with
               | [vals; defs; nv] ->
                   let vs = List.map bytes_of (split '.' vals) in
